@@ -22,7 +22,8 @@ impl GameTime {
     // Calculates the time the engine allocates for searching a single
     // move. This depends on the number of moves still to go in the game.
     pub fn calculate_time_slice(&self, color: PieceColor) -> u128 {
-        let mtg = self.movestogo.unwrap_or(GAME_LENGTH) as f64;
+        // movestogo 0 (sent by some GUIs in sudden death) means "not told": dividing by it would plan forever
+        let mtg = self.movestogo.filter(|&m| m > 0).unwrap_or(GAME_LENGTH) as f64;
         let is_white = color == PieceColor::White;
         let clock = if is_white { self.wtime } else { self.btime } as f64;
         let increment = if is_white { self.winc } else { self.binc } as f64;
